@@ -5,6 +5,7 @@ package main
 import (
 	"bytes"
 	"fmt"
+	"math/rand"
 	"net"
 	"sort"
 	"strings"
@@ -76,6 +77,9 @@ func (r *Run) c16Scenario(i int) {
 	}
 	var events []string
 	var mu sync.Mutex
+	// private PRNG for the callbacks that run on the server's goroutines (they may outlive the
+	// scenario; the shared one must only be used by the main goroutine)
+	lrng := rand.New(rand.NewSource(rng.Int63()))
 	ev := func(f string, a ...interface{}) {
 		mu.Lock()
 		events = append(events, fmt.Sprintf(f, a...))
@@ -142,7 +146,7 @@ func (r *Run) c16Scenario(i int) {
 			}
 			raw := reply.enc()
 			mu.Lock()
-			delay := time.Duration(rng.Intn(300)) * time.Microsecond
+			delay := time.Duration(lrng.Intn(300)) * time.Microsecond
 			mu.Unlock()
 			go func() {
 				time.Sleep(delay)
@@ -242,9 +246,23 @@ func (r *Run) c16Scenario(i int) {
 	}
 	conn.waitIdle(3 * time.Second)
 	time.Sleep(300 * time.Microsecond)
+	// the oracles below run single-threaded and call viol (which takes mu): work on copies
 	mu.Lock()
-	defer mu.Unlock()
+	anns = append([]annObs{}, anns...)
+	resps = append([]string{}, resps...)
+	deliveredCopy := map[string]int{}
+	for k, v := range delivered {
+		deliveredCopy[k] = v
+	}
+	delivered = deliveredCopy
+	askedCopy := map[*simNode]bool{}
+	for _, sn := range nodes {
+		askedCopy[sn] = sn.asked
+	}
+	conn.onWrite = nil
+	mu.Unlock()
 	_ = respCount
+	_ = askedCopy
 	// ---- oracles on announce_peer ----
 	type elig struct {
 		sn *simNode
